@@ -70,6 +70,7 @@ TBlock  == IsEvent("p_block") /\ PBlock /\ UNCHANGED scn
 TRead   == IsEvent("p_read") /\ PRead(Ev.s, Ev.want, Ev.ids) /\ UNCHANGED scn
 TWpart  == IsEvent("p_wpart") /\ PWpart(Ev.ids) /\ UNCHANGED scn
 TWrite  == IsEvent("p_write") /\ (IF Ev.n < 0 THEN PWriteEpipe ELSE PWrite(Ev.ids, Ev.n)) /\ UNCHANGED scn
+TEintr  == IsEvent("p_eintr") /\ PEintr /\ UNCHANGED scn
 TClose  == IsEvent("p_close") /\ PClose(Ev.s) /\ UNCHANGED scn
 TStuck  == IsEvent("stuck") /\ Stuck(Ev.timer) /\ UNCHANGED scn
 TRunaway == IsEvent("runaway") /\ Runaway /\ UNCHANGED scn
@@ -90,7 +91,7 @@ TEnd ==
 TraceNext ==
   \/ TReset \/ TCall \/ TRet \/ TCommit \/ TChildRd \/ TChildWr \/ TChildEp \/ TChildCl \/ TChildEx
   \/ TChildWk \/ TTick \/ TPoll \/ TBlock \/ TRead \/ TWpart \/ TWrite \/ TClose \/ TStuck \/ TRunaway
-  \/ TCpuSpin \/ TNote \/ TEnd
+  \/ TCpuSpin \/ TEintr \/ TNote \/ TEnd
 
 TraceSpec == TraceInit /\ [][TraceNext]_tvars
 
